@@ -17,6 +17,7 @@ Families:
 import os
 import random
 import re
+import shutil
 
 from vf import core, tools
 from vf.gen import condgen as C
@@ -25,6 +26,7 @@ from vf.gen import exprgen as E
 LEVEL = "exploration"
 PID = "C09"
 BATCH = 100
+MAX_EXPLAINED = 6          # failing units confirmed + minimised per case (part of the enumeration)
 MARK = re.compile(r"\b(s\d+_(?:\d+|pd|pv|inc)|cm_\d+|ct_\d+_[tf])\b")
 DIAG = re.compile(r"^(?:[^\s:]+):(\d+):(\d+): (error|warning): (.*)$", re.M)
 GXX = ["g++", "-E", "-P", "-x", "c++", "-std=c++2b"]
@@ -207,6 +209,11 @@ def run_units(ctx, case, res, units, family):
         if not suspects:
             continue
         for j, u in suspects:
+            if res.counters.get("failing_sequences", 0) >= MAX_EXPLAINED:
+                # enough confirmed and minimised failures from this part; the rest is counted, not examined (nothing
+                # is reported without having been confirmed alone)
+                res.count("suspects_not_examined")
+                continue
             confirm_unit(ctx, d, res, u, family)
 
 
@@ -577,7 +584,36 @@ def explain_rand(ctx, d, incs, res, f, pr, st, in_skipped, other_err):
                     extra.append((len(extra), i, "allplain", allp))
                     for pth in paths:
                         extra.append((len(extra), i, ("one", pth), replace_at(n, list(pth), plain(node_at(n, pth)[2]))))
-        extra = [x for x in extra if E.try_eval(x[3]) is not None]
+        # a macro reference whose replacement list is fine when written out in the #if itself: which part of the
+        # replacement list is it that the *definition* gets wrong?
+        bodyprobes = []      # (id, index into minimal, sub-expression of the body)
+        for i, (k, n, o) in enumerate(minimal):
+            if n[0] == "ref" and n[1] == "macro" and n[2] in ev[k].get("bodies", {}):
+                seen = set()
+                for sub in E.subexprs(ev[k]["bodies"][n[2]]):
+                    t = E.render(sub, 2)
+                    if t not in seen and E.try_eval(sub) is not None:
+                        seen.add(t)
+                        bodyprobes.append((len(bodyprobes), i, sub))
+        if bodyprobes:
+            secs = []
+            for j, i, sub in bodyprobes:
+                k, n, o = minimal[i]
+                rec = dict(ev[k])
+                rec["state"] = dict(rec["state"])
+                rec["state"][n[2]] = "(" + E.render(sub, 2) + ")"
+                secs.append((j, section(rec, j, node=["ref", "macro", n[2], E.evaluate(sub)[0], "i", E.P_PRIMARY],
+                                        value=plain(E.evaluate(sub)[0])), True))
+            outB = run_sections(d, incs, secs, "F")
+            for i, (k, n, o) in enumerate(list(minimal)):
+                mine = [(j, sub) for j, ii, sub in bodyprobes if ii == i and isbad(outB.get(j))]
+                if mine:
+                    j, sub = mine[0]
+                    rep("%s:cond=macro-body:%s" % (cat(outB[j]), fold(E.root_sig(sub))),
+                        witness="\n".join(secs[j][1]), directive=ev[k]["text"], expected=ev[k]["value"])
+                    minimal[i] = None
+            minimal = [m for m in minimal if m is not None]
+        extra = [x for x in extra if E.try_eval(x[3]) is not None and minimal]
         outD = run_sections(d, incs, [(j, section(ev[minimal[i][0]], j, node=r, value=plain(E.evaluate(r)[0])), True)
                                       for j, i, tag, r in extra], "E") if extra else {}
         failing = lambda j: outD.get(j) not in ("ok", "inconclusive", None)
@@ -705,6 +741,7 @@ def run_case(ctx, case):
     t0 = time.time()
     res = _run_case(ctx, case)
     res.count("cpu_ms_" + case["kind"], int((time.time() - t0) * 1000))
+    shutil.rmtree(ctx.casedir(case["id"]), ignore_errors=True)
     return res
 
 
@@ -798,7 +835,8 @@ def main(chk):
     chk.extra["random_trees"] = nr
     # the enumeration is complete when every part ran and every unit was conclusive
     chk.exhaustive = bool(n_exh == chk.extra["exhaustive_sequences_expected"] and not chk.harness_errors
-                          and chk.counters.get("references_disagree", 0) == 0)
+                          and chk.counters.get("references_disagree", 0) == 0
+                          and chk.counters.get("suspects_not_examined", 0) == 0)
     chk.extra["exhaustive_note"] = ("exhaustive=true refers to the exh and side families (finite spaces enumerated "
                                     "completely); the rand family is sampled")
     chk.min_conclusive = max(1, len(cases) // 2)
